@@ -8,7 +8,7 @@ metas = {}
 for mp in sorted(glob.glob(os.path.join(HERE, "seeded", "*", "meta.json"))):
     m = json.load(open(mp))
     sid = m["seed_id"]
-    m["round"] = {"A": 1, "B": 1, "C": 2, "D": 2, "E": 3, "F": 3, "G": 4, "H": 4}.get(sid[-1], 5)
+    m["round"] = {"A": 1, "B": 1, "C": 2, "D": 2, "E": 3, "F": 3, "G": 4, "H": 4, "I": 5, "J": 5}.get(sid[-1], 6)
     m["detection_history"] = H.get(sid, "caught by the check of its property as it stood when the change was produced (quick tier, seed 1)")
     json.dump(m, open(mp, "w"), indent=1)
     metas[sid] = m
@@ -32,11 +32,11 @@ w("## Appendix C — independently seeded changes (`seeded/<id>/`) and which che
 w()
 w("For every property a fresh sub-agent was given only the text of the property and its own scratch git worktree of")
 w("/repo (nothing from /verif) and asked for two independent changes that break the property, still import, still pass")
-w("the repository suite, and need something specific to manifest. This was done five times: round 1 (`Cxx_A`, `Cxx_B`) and, each")
+w("the repository suite, and need something specific to manifest. This was done several times: round 1 (`Cxx_A`, `Cxx_B`) and, each")
 w("time every change of the previous round was caught, round 2 (`Cxx_C`, `Cxx_D`), round 3 (`Cxx_E`, `Cxx_F`), round 4 (`Cxx_G`,")
-w("`Cxx_H`) and round 5 (`Cxx_I`, `Cxx_J`), whose agents were also told what the earlier rounds")
+w("`Cxx_H`), round 5 (`Cxx_I`, `Cxx_J`) and round 6 (`Cxx_K`, `Cxx_L`), whose agents were also told what the earlier rounds")
 w("had changed and asked for another site, another mechanism and preferably another clause of the property or another kind of")
-w("trigger (rounds 4 and 5: explicitly not an absolute tolerance, a missing cache invalidation or an array shared with the caller, the")
+w("trigger (rounds 4 to 6: explicitly not an absolute tolerance, a missing cache invalidation or an array shared with the caller, the")
 w("three families that dominated rounds 2 and 3). Each change was then confirmed by")
 w("`tools/eval_seed.py` in a scratch worktree: the demonstration exits 0 on the clean tree and 1 with the patch, every")
 w("BASELINE `stable_pass` test still passes with the patch, and the registered quick command of the property (plus")
@@ -45,7 +45,7 @@ w("itself is never modified, so concurrent runs are not disturbed). After a chec
 w("again with `tools/recheck_seed.py` (first results kept in `meta.json: checks_first`). `seeded/<id>/` holds `patch.diff`,")
 w("`demo.py`, `notes.md` (the author's description) and `meta.json` (what it breaks, what it needs, what was run, results).")
 w()
-for rnd in (1, 2, 3, 4, 5):
+for rnd in sorted({m["round"] for m in metas.values()}):
     ms = [m for m in metas.values() if m["round"] == rnd]
     v = [m for m in ms if valid(m)]
     c = [m for m in v if caught(m)]
@@ -58,7 +58,7 @@ for rnd in (1, 2, 3, 4, 5):
       f"more were seen only by the check of another property). What was changed in response:")
     w()
     for sid in sorted(H):
-        if {"A": 1, "B": 1, "C": 2, "D": 2, "E": 3, "F": 3, "G": 4, "H": 4}.get(sid[-1], 5) == rnd:
+        if {"A": 1, "B": 1, "C": 2, "D": 2, "E": 3, "F": 3, "G": 4, "H": 4, "I": 5, "J": 5}.get(sid[-1], 6) == rnd:
             w(f"* **{sid}** {H[sid]}")
     w()
 w("| seed | what it changes / needs | confirmed (demo 0->1, suite passes) | checks run (quick tier, seed 1) | first report |")
